@@ -238,6 +238,35 @@ def run(chk, replay=None):
         for unit in (0.1, 3e-7, 0.7, 1e3 / 3):
             poisson_case(wt, unit, False, 'decimal')
 
+    # ---------------------------------------------------------------- 2b. space-magnitude matrices in several memory layouts
+    # (the cumulative order is the row-major order of (cell, bin) whatever the memory layout of the rate array)
+    for mi, mat in enumerate([[[1, 0, 2], [0, 3, 2]], [[0, 1], [2, 0], [1, 4]], [[1, 1, 1, 1], [2, 0, 0, 2]]]):
+        nc_, nb_ = len(mat), len(mat[0])
+        flatw = [x for row in mat for x in row]
+        Wm = sum(flatw)
+        exact = (Wm & (Wm - 1) == 0)
+        for layout in ('C', 'F', 'T'):
+            unit = 0.125 if exact else 0.1
+            rates_m = [[x * unit for x in row] for row in mat]
+            cdf = Cdf([x * unit for x in flatw])
+            us = boundary_draws(cdf, nc_ * nb_, exact)
+            fc = B.forecast(numpy.array(rates_m), layout=layout)
+            firstc = next(i for i in range(nc_ * nb_) if flatw[i] > 0)
+            wobs = [[1 if c * nb_ + b == firstc else 0 for b in range(nb_)] for c in range(nc_)]
+            cat = B.catalog(wobs, nc_, nb_)
+            rn = numpy.array(us, dtype=float).reshape(len(us), 1)
+            with Capture(numpy, {'poisson': pe}) as cap:
+                res = guarded(pe.conditional_likelihood_test, fc, cat, num_simulations=len(us), random_numbers=rn)
+            chk.count(len(us))
+            if isinstance(res, Raised):
+                chk.violation('poisson:raised:matrix-%s' % layout, {'matrix': mat, 'err': repr(res)})
+            for (name, tgt, weights, draws, out) in cap.calls:
+                dr = [project_draw(cdf, u, nc_ * nb_, not exact, Wm) for u in draws]
+                add_trace(base_trace(kind='poisson', wt=list(flatw), target=tgt, n=nc_ * nb_, zero=[1 if x == 0 else 0 for x in flatw],
+                                     draws=dr, result=[int(x) for x in numpy.asarray(out).reshape(-1)]),
+                          {'label': 'matrix-layout-%s' % layout, 'wt': mat, 'unit': unit, 'draws': draws, 'module': name}, exact)
+            chk.nontrivial('matrix|%d|%s' % (mi, layout))
+
     # ---------------------------------------------------------------- 3. random arrays (float cumulative total may round below 1)
     n_rand = 30 if quick else 300
     for t in range(n_rand):
